@@ -108,7 +108,9 @@ def run_c13(pid, tier, seed):
         # when the store's own methods are on the stack that is the race the property forbids, found the hard way
         msg = run_harness(binp, args, env=genv, tolerate_crash=True)
         if msg:
-            if "fatal error: concurrent map" in msg and "flyt.(*SharedStore)" in msg:
+            if "flyt.(*SharedStore)" in msg and ("fatal error: concurrent map" in msg or "panic:" in msg):
+                # (a store method that panics where a map would not - e.g. on a value that cannot be compared - is
+                # just as little "equivalent to an ordinary map")
                 crashes.append(msg)
             else:
                 raise ToolFailure(msg)
@@ -194,7 +196,7 @@ def replay(bundle):
     rp = os.path.join(d, "replay.ndjson")
     with open(rp, "w") as f:
         f.write(json.dumps(bundle["scenario"]) + "\n")
-    if bundle["scenario"].get("fam") == "storeowner":
+    if bundle["scenario"].get("fam") in ("storeowner", "storeagg"):
         log("head of the recorded owner log: %s" % json.dumps(bundle["scenario"]["h"][:12]))
         binp = build_harness(d, race=True)
         sp = os.path.join(d, "churn.ndjson")
